@@ -7,6 +7,7 @@ import E2P.Model.Peg
 import E2P.Generated.Grammar
 import Mathlib.Data.List.Basic
 import E2P.Model.Lex
+import E2P.Lemmas.LexCover
 namespace E2P.C05
 open E2P
 
@@ -364,6 +365,12 @@ theorem lexer_table_modelled :
 /-- both separators (and `~`) are the same token class, so `separator_blind` applies to the lexed formula -/
 theorem separators_one_class :
     Lex.scannerOf E2P.Generated.lexerRegexes "SeparatorToken" = .alts [[';'], [','], ['~']] := by decide +kernel
+
+/-- **The lexer drops nothing but whitespace** (for any lexer table): when `Lexer.parse` returns tokens, their texts, in order and
+    with whitespace only before, between and after them, are the whole stripped formula text — the lexer-level half of "never
+    drops a part of the formula" (the parser-level half is `yield_exact`). -/
+theorem lexer_drops_nothing (tbl : List (String × Lex.Scanner)) (s : List Char) (toks : List Tok) (h : Lex.lex tbl s = .ok toks) :
+    Lex.Covers toks (Lex.strip s) := Lex.lex_covers tbl s toks h
 
 /-! ### non-vacuity on the grammar of this run -/
 
